@@ -208,7 +208,7 @@ type VExpr struct {
 
 // BExpr is a boolean expression of the block language.
 type BExpr struct {
-	Op  string // t f argnil argeq sge gge even bnot
+	Op  string // t f argnil argeq sge gge even posge tlen bnot
 	I   int
 	H   []byte
 	Key string
@@ -549,6 +549,8 @@ func (p *printer) bexpr(b *BExpr) {
 	p.tok(b.Op)
 	switch b.Op {
 	case "t", "f", "even":
+	case "posge", "tlen":
+		p.i(b.N)
 	case "argnil":
 		p.d(b.I)
 	case "argeq":
@@ -972,6 +974,8 @@ func (r *reader) bexpr(depth int) *BExpr {
 	}
 	switch b.Op {
 	case "t", "f", "even":
+	case "posge", "tlen":
+		b.N = r.i()
 	case "argnil":
 		b.I = r.d()
 	case "argeq":
